@@ -200,6 +200,49 @@ Theorem C14_rt_maximum_bitrate : forall d v k out rest,
 Proof. exact rt_maximum_bitrate. Qed.
 Print Assumptions C14_rt_maximum_bitrate.
 
+Theorem C14_rt_registration : forall d v out rest,
+  Descriptor_Tag d = 5 -> Descriptor_Registration d = Some v ->
+  0 <= DescriptorRegistration_FormatIdentifier v < 2 ^ 32 ->
+  zlen (DescriptorRegistration_AdditionalIdentificationInfo v) < 252 ->
+  enc_descriptors_with_length [d] = Ok out -> items_bytes_ok out ->
+  parse_descriptors (new_iter (bytes_of_items out ++ rest)) =
+    Ok ([set_Registration (desc_hdr 5 (4 + zlen (DescriptorRegistration_AdditionalIdentificationInfo v))) v],
+        mk_iter (bytes_of_items out ++ rest) (8 + zlen (DescriptorRegistration_AdditionalIdentificationInfo v))).
+Proof. exact rt_registration. Qed.
+Print Assumptions C14_rt_registration.
+
+(* language code of exactly 3 bytes *)
+Theorem C14_rt_iso639 : forall d v out rest,
+  Descriptor_Tag d = 10 -> Descriptor_ISO639LanguageAndAudioType d = Some v ->
+  length (DescriptorISO639LanguageAndAudioType_Language v) = 3%nat ->
+  byte_range (DescriptorISO639LanguageAndAudioType_Type v) ->
+  enc_descriptors_with_length [d] = Ok out -> items_bytes_ok out ->
+  parse_descriptors (new_iter (bytes_of_items out ++ rest)) =
+    Ok ([set_ISO639LanguageAndAudioType (desc_hdr 10 4) v], mk_iter (bytes_of_items out ++ rest) 8).
+Proof. exact rt_iso639. Qed.
+Print Assumptions C14_rt_iso639.
+
+Theorem C14_rt_service : forall d v out rest,
+  Descriptor_Tag d = 72 -> Descriptor_Service d = Some v -> byte_range (DescriptorService_Type v) ->
+  3 + zlen (DescriptorService_Provider v) + zlen (DescriptorService_Name v) < 256 ->
+  enc_descriptors_with_length [d] = Ok out -> items_bytes_ok out ->
+  parse_descriptors (new_iter (bytes_of_items out ++ rest)) =
+    Ok ([set_Service (desc_hdr 72 (3 + zlen (DescriptorService_Provider v) + zlen (DescriptorService_Name v))) v],
+        mk_iter (bytes_of_items out ++ rest) (4 + (3 + zlen (DescriptorService_Provider v) + zlen (DescriptorService_Name v)))).
+Proof. exact rt_service. Qed.
+Print Assumptions C14_rt_service.
+
+(* all three constraint flags, both picture flags, 5 compatible-flag bits *)
+Theorem C14_rt_avc_video : forall d v out rest,
+  Descriptor_Tag d = 40 -> Descriptor_AVCVideo d = Some v ->
+  byte_range (DescriptorAVCVideo_ProfileIDC v) -> byte_range (DescriptorAVCVideo_LevelIDC v) ->
+  0 <= DescriptorAVCVideo_CompatibleFlags v < 32 ->
+  enc_descriptors_with_length [d] = Ok out -> items_bytes_ok out ->
+  parse_descriptors (new_iter (bytes_of_items out ++ rest)) =
+    Ok ([set_AVCVideo (desc_hdr 40 4) v], mk_iter (bytes_of_items out ++ rest) 8).
+Proof. exact rt_avc_video. Qed.
+Print Assumptions C14_rt_avc_video.
+
 (* the hypotheses of the round trips are satisfiable: a stream identifier whose struct Length is wrong *)
 Example C14_rt_example :
   let d := set_StreamIdentifier (desc_hdr 82 77) {| DescriptorStreamIdentifier_ComponentTag := 200 |} in
